@@ -204,19 +204,25 @@ func healthyMissing(in *In, o *Obs) bool {
 	if n == 0 {
 		n = 3
 	}
-	seen := func(l []Inv, name string) bool {
+	seen := func(l []Inv, name, req string) bool {
 		for _, i := range l {
-			if i.P == name {
+			if i.P == name && i.R == req {
 				return true
 			}
 		}
 		return false
 	}
+	failed := o.Fault.Res.Err != ""
 	for i := 0; i < n; i++ {
 		if i == in.Pos {
 			continue
 		}
-		if !seen(o.Next.Log, names[i]) {
+		if !seen(o.Next.Log, names[i], "next.") {
+			return true
+		}
+		// in the request under test everybody before the faulty plugin is invoked, and everybody
+		// behind it unless the request was (legitimately or not) failed there
+		if (i < in.Pos || !failed) && !seen(o.Fault.Log, names[i], "fault") {
 			return true
 		}
 	}
@@ -247,7 +253,7 @@ func runCase(dir string, in *In) Obs {
 var reqTypes = []int{rt.EvCreate, rt.EvUpdate, rt.EvStop, rt.EvStart, rt.EvUpdatePod}
 
 const (
-	timeoutMs = 150
+	timeoutMs = 200
 	slackMs   = 2500
 )
 
@@ -289,7 +295,7 @@ func Run(o *hx.Opts, w *lineio.Writer) error {
 	}) {
 		return nil
 	}
-	const par = 6
+	const par = 5
 	if o.Replay != "" {
 		cases, err := hx.ReplayCases(o.Replay)
 		if err != nil {
